@@ -28,9 +28,15 @@ def main():
     from femio import FEMData, FEMAttribute, FEMElementalAttribute
 
     def mesh(m):
-        pts = np.array(m['pts'], dtype=np.float64).reshape(-1, 3)
+        if m.get('pts_hex'):
+            pts = np.array([[float.fromhex(x) for x in p] for p in m['pts_hex']],
+                           dtype=np.float64).reshape(-1, 3)
+        else:
+            pts = np.array(m['pts'], dtype=np.float64).reshape(-1, 3)
         if m.get('scale_exp'):
             pts = pts * (2.0 ** m['scale_exp'])          # exact: power of two
+        if m.get('dtype'):
+            pts = pts.astype(m['dtype'])
         ids = np.array(m.get('ids') or list(range(1, len(pts) + 1)), dtype=int)
         elements = None
         if m.get('elems'):
@@ -68,9 +74,9 @@ def main():
                 bound = float('inf') if c['bound'] is None else float.fromhex(c['bound'])
 
                 def once():
+                    tgt = (A if c.get('same_object') else None) if c.get('B') is None else B
                     return A.nearest_neighbor_search_from_nodes_to_nodes(
-                        c['k'], distance_upper_bound=bound,
-                        target_fem_data=(None if c.get('B') is None else B))
+                        c['k'], distance_upper_bound=bound, target_fem_data=tgt)
                 run_history(c, A, None if c.get('B') is None else B, once)
                 idx, vec, dist = once()
                 if c.get('history'):
